@@ -24,6 +24,8 @@ Obs(q) == [size |-> Len(q),
            at |-> [i \in 1..(Len(q) + Extra) |-> At(q, i - 1)],       \* positions 0 .. size+2
            atmax |-> Refused,                                         \* position SIZE_MAX
            iter |-> q,                                                \* begin() .. end()
+           riter |-> [i \in 1..Len(q) |-> q[Len(q) + 1 - i]],          \* --end() .. begin(), read through operator->
+           post |-> q,                                                \* the same walk with it++
            steps |-> Len(q),                                          \* increments from begin() to reach end()
            hsize |-> Len(q),                                          \* size() helper of the owning node, where there is one
            hat |-> [i \in 1..(Len(q) + Extra) |-> At(q, i - 1)]]      \* operator[] helper, where there is one
